@@ -151,9 +151,26 @@ def inline_helpers(expr, module, depth=2):
     return Inl().visit(copy.deepcopy(expr))
 
 
-def count_appends(stmts, name):
+def _guard_continue_to_else(stmts):
+    """Loop-body statement list in which `if T: ...; continue` followed by REST is rewritten as
+    `if T: ... else: REST` (the same paths, without the jump)."""
+    out = []
+    for i, st in enumerate(stmts):
+        if isinstance(st, ast.If) and not st.orelse and st.body and isinstance(st.body[-1], ast.Continue) \
+                and not any(isinstance(n, (ast.Break, ast.Continue, ast.Return)) for b in st.body[:-1] for n in ast.walk(b)):
+            new = ast.If(test=st.test, body=list(st.body[:-1]) or [ast.Pass()], orelse=_guard_continue_to_else(stmts[i + 1:]))
+            out.append(ast.copy_location(new, st))
+            return out
+        out.append(st)
+    return out
+
+
+def count_appends(stmts, name, loop_body=False):
     """(min, max) number of `name.append(...)` executed along the paths through stmts, and
-    whether a break / continue / return occurs."""
+    whether a break / continue / return occurs.  With loop_body, stmts is the whole body of the
+    loop the count is per iteration of, and guard-clause `continue`s are read as if/else."""
+    if loop_body:
+        stmts = _guard_continue_to_else(stmts)
     lo = hi = 0
     jumps = []
     for st in stmts:
@@ -234,7 +251,7 @@ def rule_once_c01(ctx):
     else:
         r.ok()
     for name in lists:
-        lo, hi, jumps = count_appends(loop.body, name)
+        lo, hi, jumps = count_appends(loop.body, name, loop_body=True)
         inst = {"list": name, "appends_per_item": [lo, hi if hi < INF else "unbounded"], "jumps": [head(j) for j in jumps]}
         r.instances.append(inst)
         if (lo, hi) != (1, 1):
@@ -300,6 +317,33 @@ def rule_once_c01(ctx):
             r.fail(Finding("R-ONCE/C01", f"R-ONCE|conditions.Condition._filter|{lst}|stale:{var}", f"{f.file}:{st.lineno}",
                            f"`{lst}.append({var})`: `{var}` is not assigned on every path through the item loop before it is recorded, so an item can inherit the flag "
                            f"computed for an earlier item (e.g. once one item made the callable raise, every later item is recorded as an error)", []))
+    # what is recorded for an item does not come from what was recorded for another item: no appended value reads a
+    # per-item list (directly or through a local computed from one), e.g. a memo that re-uses the flags of an equal datum
+    derived = set()
+    changed = True
+    while changed:
+        changed = False
+        for n in ast.walk(loop):
+            if isinstance(n, ast.Assign):
+                reads = {x.id for x in ast.walk(n.value) if isinstance(x, ast.Name)}
+                if reads & (set(lists) | derived):
+                    for t in n.targets:
+                        for x in ast.walk(t):
+                            if isinstance(x, ast.Name) and isinstance(x.ctx, ast.Store) and x.id not in derived:
+                                derived.add(x.id)
+                                changed = True
+    for n in ast.walk(loop):
+        if isinstance(n, ast.Call) and isinstance(n.func, ast.Attribute) and n.func.attr == "append" and isinstance(n.func.value, ast.Name) and n.func.value.id in lists and n.args:
+            reads = {x.id for x in ast.walk(n.args[0]) if isinstance(x, ast.Name)}
+            src = sorted(reads & (set(lists) | derived))
+            inst = {"list": n.func.value.id, "records": norm(n.args[0]), "reads earlier records through": src}
+            r.instances.append(inst)
+            if src:
+                r.fail(Finding("R-ONCE/C01", f"R-ONCE|conditions.Condition._filter|{n.func.value.id}|copied:{norm(n.args[0])}", f"{f.file}:{n.lineno}",
+                               f"`{norm(n)}`: the value recorded for this item is read from the records of earlier items ({src}), not computed from the item: "
+                               f"items that merely compare equal (1, True, 1.0) get each other's outcome", []))
+            else:
+                r.ok()
     # nothing after the loop touches the lists before they are handed over
     idx = f.node.body.index(loop)
     for st in f.node.body[idx + 1:]:
